@@ -5,12 +5,10 @@
 //@ twins: require_static_on_variant_field.accept.rs
 use gc_arena::Collect;
 
-pub struct NotCollect;
-
 #[derive(Collect)]
 #[collect(no_drop)]
 pub enum MyEnum {
     #[collect(require_static)]
-    First { field: NotCollect },
+    First { field: u8 },
     Second(u8),
 }
